@@ -293,10 +293,13 @@ func (s *Solver) BeginPath() {
 	for i, b := range s.bs {
 		if !b.dead && b.sent >= recycleAfter {
 			// incremental solvers (cvc5 in particular) grow without bound over push/pop; between paths
-			// nothing is carried over, so a fresh process is equivalent
-			b.dead = true
-			b.close()
-			s.Restarts--
+			// nothing is carried over, so a fresh process is equivalent (the old one goes only once the new one is up)
+			if nb, err := s.spawn(b.name); err == nil {
+				b.dead = true
+				b.close()
+				s.bs[i] = nb
+				continue
+			}
 		}
 		if b.dead {
 			if nb, err := s.spawn(b.name); err == nil {
